@@ -200,7 +200,7 @@ func driveTotal(args []string) error {
 		distinct[digest(string(st), string(it))] = struct{}{}
 		runs += len(ev["outs"].([]interface{}))
 		if len(samples) < 4 && w.n%211 == 0 {
-			samples = append(samples, map[string]interface{}{"schema": json.RawMessage(st), "instance": string(it[:minInt(len(it), 200)]), "outcomes": ev["outs"].([]interface{})[:4]})
+			samples = append(samples, map[string]interface{}{"schema": json.RawMessage(st), "instance": string(it[:minInt(len(it), 200)]), "outcomes": ev["outs"].([]interface{})[:minInt(4, len(ev["outs"].([]interface{})))]})
 		}
 		return w.write(ev, map[string]interface{}{"schema": json.RawMessage(st), "inst": json.RawMessage(it)})
 	}
